@@ -257,7 +257,15 @@ func genC13(t *rapid.T) c13Case {
 			c.Steps = append(c.Steps, c13Step{Kind: "query", Q: &q})
 			continue
 		}
-		switch rapid.IntRange(0, 10).Draw(t, "stepkind") {
+		switch rapid.IntRange(0, 11).Draw(t, "stepkind") {
+		case 11:
+			for _, q := range genBlockQueries(t) {
+				q := q
+				c.Steps = append(c.Steps, c13Step{Kind: "query", Q: &q})
+				if chance(t, "derived-after-block-query", 3) {
+					c.Steps = append(c.Steps, c13Step{Kind: "derived", Ref: rapid.IntRange(0, 1000).Draw(t, "bdref")})
+				}
+			}
 		case 10:
 			// the same DNS name in several spellings, one right after the other
 			h := pick(t, "cvh", []string{"example.org", "a.com", "sub.example.org", "google.com", "shared.example", hostColliders[0][0]})
